@@ -176,14 +176,25 @@ impl Prop for Totality {
         // extreme but finite payoff magnitudes (products with probabilities stay finite)
         let mut scale = 1.0;
         if r.coin(0.12) {
-            scale = *r.pick(&[1e-300, 1e-100, 1e-30, 1e-8, 1e8, 1e30, 1e100, 1e250]);
+            scale = *r.pick(&[1e-310, 1e-300, 1e-100, 1e-30, 1e-8, 1e8, 1e30, 1e100, 1e250]);
             game = game.map_payoffs(&mut |x| x * scale);
         }
         // chance weights are unnormalised: any positive finite magnitude is inside the contract
         let mut wscale = 1.0;
         if r.coin(0.06) {
-            wscale = *r.pick(&[1e-300, 1e-150, 1e150, 1e300, 8e307]);
+            wscale = *r.pick(&[1e-310, 1e-300, 1e-150, 1e150, 1e300, 8e307]);
             game = game.map_weights(&mut |w| w * wscale);
+        }
+        // legal oddities: a negative zero among the payoffs; the smallest game there is (a terminal root)
+        if r.coin(0.03) {
+            let mut k = 0u32;
+            game = game.map_payoffs(&mut |x| {
+                k += 1;
+                if k % 3 == 1 { -0.0 } else { x }
+            });
+        }
+        if r.coin(0.003) {
+            game = MNode::T(if integer { 3.0 } else { -0.75 } * scale);
         }
         let mut edge = "none";
         let force_edge = std::env::var("VERIF_C05_FORCE_EDGE").is_ok();
@@ -313,6 +324,9 @@ impl Prop for Totality {
         m.add("fault_cores_override", a.seam.stats.cores_override_fired);
         m.add("fault_worker_starved_pct_schedule", matches!(case.sched.policy, crate::sched::Policy::Pct { .. }) as u64);
         m.add("probe_zero_iterations", (case.t == 0) as u64);
+        for sp in case.game.shape_probes() {
+            m.add(sp, 1);
+        }
         m.add("probe_nan_threshold", case.thresh.is_nan() as u64);
         m.add("probe_extreme_payoff_scale", (case.extra["payoff_scale"].as_f64().unwrap_or(1.0) != 1.0) as u64);
         if a.rayon.build_failures_injected + a.rayon.build_failures_too_many + a.seam.stats.cores_unknown_fired + a.seam.stats.cores_override_fired > 0
